@@ -8,9 +8,12 @@ Init == sys \in UNION {UNION {{[classes |-> s.classes, nla |-> k, nlaDep |-> Non
 NlaExpect == CASE sys.nla \in {"pair", "mixed"} -> <<"u", "w">> [] sys.nla \in {"one", "guess"} -> <<"u">> [] OTHER -> <<>>
 Next == UNCHANGED sys
 Spec == Init /\ [][Next]_sys
-Expect == [i \in DOMAIN sys.classes |-> [name |-> sys.classes[i].name, type |-> VarType(sys.classes[i]),
-             A |-> Seen(sys, sys.classes[i].name, "A", 6), B |-> Seen(sys, sys.classes[i].name, "B", 6),
-             rate |-> IF sys.classes[i].role = "state" THEN Rate(sys, sys.classes[i].name) ELSE Undef]]
-          \o [i \in DOMAIN NlaExpect |-> [name |-> NlaExpect[i], type |-> "algebraic", A |-> Seen(sys, NlaExpect[i], "A", 6), B |-> Seen(sys, NlaExpect[i], "B", 6), rate |-> Undef]]
+Sys2 == [classes |-> sys.classes, nla |-> sys.nla, nlaDep |-> sys.nlaDep, fault |-> sys.fault, step |-> 1]
+Expect == [i \in DOMAIN sys.classes |-> LET n == sys.classes[i].name st == sys.classes[i].role = "state" IN
+             [name |-> n, type |-> VarType(sys.classes[i]),
+              A |-> Seen(sys, n, "A", 6), B |-> Seen(sys, n, "B", 6), rate |-> IF st THEN Rate(sys, n) ELSE Undef,
+              A2 |-> Seen(Sys2, n, "A", 6), B2 |-> Seen(Sys2, n, "B", 6), rate2 |-> IF st THEN Rate(Sys2, n) ELSE Undef]]
+          \o [i \in DOMAIN NlaExpect |-> LET n == NlaExpect[i] IN
+              [name |-> n, type |-> "algebraic", A |-> Seen(sys, n, "A", 6), B |-> Seen(sys, n, "B", 6), rate |-> Undef, A2 |-> Seen(Sys2, n, "A", 6), B2 |-> Seen(Sys2, n, "B", 6), rate2 |-> Undef]]
 Emit == EmitScenario([sys |-> sys, run |-> RunCode, type |-> ExpectedType(sys), expect |-> Expect])
 =============================================================================
